@@ -215,6 +215,20 @@ Write(bytes) ==
 
 Drop == cur' = <<>> /\ lib' = TRUE /\ out' = <<>>
 
+\* The object's own Read is handed the message `bytes` of ANOTHER pack of its kind with
+\* content p2 (a receiver that decodes every message into one object and forwards it):
+\* from then on the object IS that pack -- nothing the object held or derived before
+\* (content, a cached hash, cached encodings) has a say in a later write.  For the kinds
+\* whose reader restores the content as it is.
+RereadKinds == {"tagcount", "logsink", "text", "param", "zip"}
+ReadInto(kind, p2, bytes) ==
+  /\ cur # <<>> /\ kind = cur.kind /\ kind \in RereadKinds
+  /\ Fits(kind, p2)
+  /\ bytes = PackBytes(kind, p2)
+  /\ cur' = [cur EXCEPT !.p = AfterWrite(kind, p2)]
+  /\ lib' = (kind \in Hashed => p2.tagHash = Z8)
+  /\ out' = <<>>
+
 \* ---- properties
 \* a hash the library is responsible for is void or describes the current tags
 HashOwned == (cur # <<>> /\ cur.kind \in Hashed /\ lib) =>
